@@ -74,6 +74,11 @@ CHECKS = {
          "parseInt/Octal/Hex on digit patterns of every listed length with a non-digit at every position (Python int()+float(), correct rounding); parseJson on all token sequences up to the bound over 31 JSON tokens against a strict RFC 8259 + duplicate-key model (cross-checked with serde_json), parseYaml equal to parseJson on every valid JSON document among them and total on all sequences over 39 YAML tokens plus anchor / multi-document / nesting probes; base64 on all byte arrays of length <=2 and decoder inputs up to length 4/5; encodeUTF8/decodeUTF8 on every scalar value and all border byte sequences; md5/sha1/sha256/sha512/sha3 for every message length 0..300; every escapeString* function round-trips through its target language's reader on every scalar value.",
          "Trusted: ref_json, Python's int/base64/hashlib/ast, String::from_utf8_lossy; lone-surrogate JSON documents are don't-care; inputs outside the alphabets are not covered.",
          "DESIGN.md §4 C20"),
+ "C06": ("model_checking",
+         "exhaustive enumeration over boundary doubles, every binade and a literal-text grid against Python float()/repr oracles and a finiteness invariant",
+         "Every arithmetic/bitwise operator and numeric builtin over all pairs of 96 boundary doubles, every unary numeric builtin over every binade, sum/avg/min/max/foldl over all arrays of length <=3 over 12 boundary doubles must give an error or a finite number (checked on the manifested text and inside the language); a grid of literal texts (long integers, long fractions, border exponents, underscores at every position) must denote Python's correctly rounded double or be rejected on overflow; every binade x mantissa patterns printed through 4 number-to-text paths must read back to the same bits with the shortest number of digits.",
+         "Trusted: Python float()/repr; doubles outside the grids are not covered.",
+         "DESIGN.md §4 C06"),
 }
 def main():
     hooks = subprocess.run(["git","-C","/repo","log","--format=%H %s"],capture_output=True,text=True).stdout.splitlines()
